@@ -18,13 +18,21 @@ UNIT = 15625         # model tick (1/64 s, exact in binary floating point) in mi
 
 
 class FrozenClock:
-    """Replaces the ``time`` module inside time_keeper.py: no real time passes outside the back-end."""
+    """Replaces the ``time`` module inside time_keeper.py: real time passes outside the back-end only when the harness
+    says so (``outside``), in whole ticks."""
+    def __init__(self):
+        self.t = 1_000_000.0
+
     def time(self):
-        return 1_000_000.0
+        return self.t
+
+    def outside(self, ticks_: int):
+        self.t += ticks_ * TICK
 
 
 def freeze_real_time():
     tk_mod.time = FrozenClock()
+    return tk_mod.time
 
 
 # tables of SimBackend_MC (elapsed in model ticks) -> micro-seconds
@@ -76,12 +84,12 @@ def make_backend(conf: dict):
 def trace_conf(conf):
     return {"tab": [[[list(x) for x in lv] for lv in cfg] for cfg in conf["tab"]], "dres": conf["dres"], "dfin": conf["dfin"],
             "dstop": conf["dstop"], "dstart": conf["dstart"], "dcstop": conf["dcstop"], "sleep": conf["sleep"],
-            "ckpt": conf["ckpt"], "mra": conf["mra"], "eps": 1000, "rep": 10000, "seed": conf["seed"], "dropstale": True}
+            "ckpt": conf["ckpt"], "mra": conf["mra"], "eps": 1000, "rep": 10000, "seed": conf["seed"], "dropstale": True, "outs": []}
 
 
 class Episode:
     def __init__(self, conf, rng_seed=0):
-        freeze_real_time()
+        self.clock = freeze_real_time()
         np.random.seed(rng_seed)     # the back-end draws the table seed of a trial from numpy's global generator
         self.conf = conf
         self.be = make_backend(conf)
@@ -173,8 +181,17 @@ class Episode:
         self.be.time_keeper.advance(self.be.tuner_sleep_time)
         self.ev.append({"a": "Sleep", "now": self.now()})
 
+    def outside(self, d):
+        """d model ticks of real time pass outside the back-end (between two of its calls)."""
+        if self.crashed:
+            return
+        self.clock.outside(d * UNIT)
+        self.ev.append({"a": "Outside", "d": d * UNIT})
+
     def step(self, h):
         a = h["a"]
+        if a == "Outside":
+            return self.outside(h["d"])
         if a == "Start":
             self.start(h["c"], h["lim"])
         elif a == "Resume":
